@@ -22,7 +22,7 @@ func (t *ftr) eval(e ast.Expr) ([]bind, string, gtype) {
 
 func (t *ftr) emit(rhs string) string {
 	n := t.temp()
-	*t.pre = append(*t.pre, bind{n, rhs})
+	*t.pre = append(*t.pre, bind{name: n, rhs: rhs})
 	return n
 }
 
@@ -32,13 +32,13 @@ func (t *ftr) constTerm(e ast.Expr, tv types.TypeAndValue) (string, gtype, bool)
 	}
 	g := t.gtypeOf(e, tv.Type)
 	switch g.k {
-	case kInt, kByte:
+	case kInt, kByte, kUint, kInt32:
 		v := constant.ToInt(tv.Value)
 		if v.Kind() != constant.Int {
 			t.fail(e, "non-integer constant %s", tv.Value.String())
 		}
 		s := v.ExactString()
-		if g.k == kByte {
+		if g.k == kByte || g.k == kUint {
 			return s + "%N", g, true
 		}
 		if strings.HasPrefix(s, "-") {
@@ -94,6 +94,18 @@ func (t *ftr) expr(e ast.Expr) (string, gtype) {
 		}
 		n, o := t.varOf(x)
 		return n, t.gtypeOf(e, o.Type())
+	case *ast.SelectorExpr:
+		if id, ok := x.X.(*ast.Ident); ok {
+			if pn, ok := t.p.info.Uses[id].(*types.PkgName); ok {
+				if v, ok := t.T.sp.Constants[pn.Imported().Path()+"."+x.Sel.Name]; ok {
+					if v < 0 {
+						return fmt.Sprintf("(%d)%%Z", v), gtype{k: kInt}
+					}
+					return fmt.Sprintf("%d%%Z", v), gtype{k: kInt}
+				}
+				t.fail(e, "%s.%s (a constant of a package outside the standard library must be listed under \"constants\" in the spec)", pn.Imported().Path(), x.Sel.Name)
+			}
+		}
 	case *ast.UnaryExpr:
 		a, g := t.expr(x.X)
 		switch {
@@ -170,7 +182,7 @@ func (t *ftr) operandType(x *ast.BinaryExpr) gtype {
 	ty, oky := t.p.info.Types[x.Y]
 	isUntyped := func(tv types.TypeAndValue) bool {
 		b, ok := tv.Type.(*types.Basic)
-		return ok && b.Info()&types.IsUntyped != 0
+		return ok && (b.Info()&types.IsUntyped != 0 || b.Kind() == types.Invalid)
 	}
 	if okx && tx.Type != nil && !isUntyped(tx) {
 		return t.gtypeOf(x.X, tx.Type)
@@ -199,7 +211,11 @@ func (t *ftr) binary(x *ast.BinaryExpr) (string, gtype) {
 			t.fail(x.X, "operand of %s is not a bool", x.Op)
 		}
 		// the right operand is evaluated only if the left one does not decide
+		before := t.rebinds
 		bs, b, gbb := t.eval(x.Y)
+		if t.rebinds != before {
+			t.fail(x.Y, "call that writes through an argument in the right operand of %s", x.Op)
+		}
 		if gbb.k != kBool {
 			t.fail(x.Y, "operand of %s is not a bool", x.Op)
 		}
@@ -236,12 +252,12 @@ func (t *ftr) binary(x *ast.BinaryExpr) (string, gtype) {
 	a, _ := t.expr(x.X)
 	b, _ := t.expr(x.Y)
 	g := t.operandType(x)
-	sc := map[kind]string{kInt: "%Z", kByte: "%N"}[g.k]
+	sc := map[kind]string{kInt: "%Z", kByte: "%N", kUint: "%N", kInt32: "%Z"}[g.k]
 	switch x.Op {
 	case token.EQL, token.NEQ:
 		var s string
 		switch g.k {
-		case kInt, kByte:
+		case kInt, kByte, kUint, kInt32:
 			s = "(" + a + " =? " + b + ")" + sc
 		case kBool:
 			s = "(Bool.eqb " + a + " " + b + ")"
@@ -255,7 +271,7 @@ func (t *ftr) binary(x *ast.BinaryExpr) (string, gtype) {
 		}
 		return s, gb
 	case token.LSS, token.LEQ, token.GTR, token.GEQ:
-		if g.k != kInt && g.k != kByte {
+		if g.k != kInt && g.k != kByte && g.k != kUint && g.k != kInt32 {
 			t.fail(x, "ordering on %s", g.coq())
 		}
 		switch x.Op {
@@ -347,6 +363,31 @@ func (t *ftr) arith(n ast.Node, op token.Token, a, b string, g gtype, y ast.Expr
 			}
 			return fmt.Sprintf("(N.shiftr %s %d%%N)", a, c)
 		}
+	case kUint:
+		w := fmt.Sprintf("%d%%N", g.w)
+		switch op {
+		case token.ADD:
+			return "(uint_wrap " + w + " (" + a + " + " + b + ")%N)"
+		case token.SUB:
+			return "(uint_wrap " + w + " (" + a + " + 2 ^ " + w + " - " + b + ")%N)"
+		case token.MUL:
+			return "(uint_wrap " + w + " (" + a + " * " + b + ")%N)"
+		case token.AND:
+			return "(N.land " + a + " " + b + ")"
+		case token.OR:
+			return "(N.lor " + a + " " + b + ")"
+		case token.XOR:
+			return "(N.lxor " + a + " " + b + ")"
+		case token.SHL, token.SHR:
+			c, ok := constY()
+			if !ok || c < 0 {
+				t.fail(n, "shift by a non-constant count")
+			}
+			if op == token.SHL {
+				return fmt.Sprintf("(uint_wrap %s (N.shiftl %s %d%%N))", w, a, c)
+			}
+			return fmt.Sprintf("(N.shiftr %s %d%%N)", a, c)
+		}
 	case kBytes:
 		if op == token.ADD {
 			return "(go_append " + a + " " + b + ")"
@@ -366,12 +407,20 @@ func (t *ftr) call(x *ast.CallExpr) (string, gtype) {
 		to := t.gtypeOf(x.Fun, tv.Type)
 		a, from := t.expr(x.Args[0])
 		switch {
-		case to.k == from.k:
+		case to.k == from.k && to.w == from.w:
 			return a, to
 		case to.k == kInt && from.k == kByte:
 			return "(int_of_byte " + a + ")", to
 		case to.k == kByte && from.k == kInt:
 			return "(byte_of_int " + a + ")", to
+		case to.k == kUint && (from.k == kInt || from.k == kInt32):
+			return fmt.Sprintf("(uint_of_int %d%%N %s)", to.w, a), to
+		case to.k == kUint && (from.k == kByte || from.k == kUint):
+			return fmt.Sprintf("(uint_wrap %d%%N %s)", to.w, a), to
+		case to.k == kByte && from.k == kUint:
+			return "(uint_wrap 8%N " + a + ")", to
+		case to.k == kInt && from.k == kUint && from.w < 64:
+			return "(Z.of_N " + a + ")", to
 		}
 		t.fail(x, "conversion from %s to %s", from.coq(), to.coq())
 	}
@@ -427,14 +476,40 @@ func (t *ftr) call(x *ast.CallExpr) (string, gtype) {
 				t.fail(x, "variadic call")
 			}
 			parts := []string{fi.name}
+			var outNames []string
 			for i, a := range x.Args {
 				s, g := t.expr(a)
 				if g.k != fi.params[i].k {
 					t.fail(a, "argument %d of %s has type %s, expected %s", i, f.Name, g.coq(), fi.params[i].coq())
 				}
+				for _, oi := range fi.outParams {
+					if oi == i {
+						aid, ok := a.(*ast.Ident)
+						if !ok {
+							t.fail(a, "argument %d of %s is written through by the callee: it must be a variable (not %s)", i, f.Name, types.ExprString(a))
+						}
+						n, _ := t.varOf(aid)
+						outNames = append(outNames, n)
+					}
+				}
 				parts = append(parts, s)
 			}
-			return t.emit(strings.Join(parts, " ")), fi.result
+			if len(fi.outParams) == 0 {
+				return t.emit(strings.Join(parts, " ")), fi.result
+			}
+			// results first, then the written-through arguments, re-bound under their own names
+			tmp := t.temp()
+			var resNames []string
+			nres := 1
+			if fi.origRes.k == kTuple {
+				nres = len(fi.origRes.elems)
+			}
+			for i := 0; i < nres; i++ {
+				resNames = append(resNames, t.temp())
+			}
+			*t.pre = append(*t.pre, bind{name: tmp, rhs: strings.Join(parts, " "), let: tuple(append(append([]string{}, resNames...), outNames...))})
+			t.rebinds++
+			return tuple(resNames), fi.origRes
 		}
 		t.fail(x, "call of %s (not a function of this spec)", f.Name)
 	case *ast.SelectorExpr:
